@@ -52,7 +52,11 @@ def gen_setpwm(r, tier):
         pm = streams.gen_pwm_map(r)
         kind = streams.pick_world_kind(r, base=("hwmon", "file"))
         ops.append("#case setpwm")
-        ops.append(f"w.new kind={kind} ns=0 win=10 maxp=255 map={streams.int_map_tok(pm)} loop=direct m=- resp=id pwm={r.range(0,255)} rpm=900 origmode=2 origpwm=0")
+        # never-stop fans too, with a minimum anywhere (between two supported inputs, say): the NEAREST supported input is
+        # what a request is resolved to (seed C12i: requests above the minimum were redirected upwards)
+        ns = r.below(2) if kind == "hwmon" else 0
+        mintok = f" minp={r.range(0, 200)} startp=0" if ns else ""
+        ops.append(f"w.new kind={kind} ns={ns} win=10 maxp=255{mintok} map={streams.int_map_tok(pm)} loop=direct m=- resp=id pwm={r.range(0,255)} rpm=900 origmode=2 origpwm=0")
         ts = [r.range(-50, 305) for _ in range(20)] + [r.pick(sorted(pm)) for _ in range(5)]
         for t in ts:
             ops.append(f"w.setpwm t={t}")
@@ -115,7 +119,7 @@ def closest_contract(op, go_line, lean_line):
 class C12(Prop):
     id = "C12"
     lean_modules = ["Fan2go.Props.C12"]
-    fact_modules = ["Fan2go.Props.Trans", "Fan2go.Props.Trans2FindClosest", "Fan2go.Props.Trans2Keys", "Fan2go.Props.Trans3A", "Fan2go.Props.Trans3B", "Fan2go.Props.Trans3Init"]
+    fact_modules = ["Fan2go.Props.Trans", "Fan2go.Props.Trans2FindClosest", "Fan2go.Props.Trans2Keys", "Fan2go.Props.Trans3A", "Fan2go.Props.Trans3B", "Fan2go.Props.Trans3Init", "Fan2go.Props.Trans3FileIO"]
     rule = ("closest: exhaustive key sets over a small universe x requests -50..305 + random full-size key sets; "
             "distinct: PWM-map shapes (identity, sparse, quantiser, plateau, non-monotone, constant, single); "
             "setpwm: real controller.setPwm on a virtual device (hwmon / file fans) or on real scripts (cmd fans). non-trivial = distinct (|keys|>=2, request strictly "
